@@ -129,6 +129,9 @@ func c18Addr(c *harness.Check, cs addrCase) string {
 			if strings.HasPrefix(content, "@use(\"zbase\")") {
 				content = "<html>home</html>" // the one page of these trees that uses a layout
 			}
+			if strings.HasPrefix(content, "@component(\"sub/zcomp\")") {
+				content = "<zc>;<zc>;<zc>;<zc>;<zc>;" // ... and the one that uses a component
+			}
 			if ferr != nil || out != content {
 				failure = fmt.Sprintf("template %q renders %q / %v, its file holds %q", n, out, ferr, content)
 				return
@@ -162,8 +165,8 @@ func c18Addr(c *harness.Check, cs addrCase) string {
 		}
 		// evaluating a file by path equals evaluating its content as a string
 		for n, content := range expected {
-			if strings.Contains(content, "@use(") {
-				continue // layouts belong to the template API
+			if strings.Contains(content, "@use(") || strings.Contains(content, "@component(") {
+				continue // layouts and components belong to the template API
 			}
 			abs := filepath.Join(root, filepath.FromSlash(prefix+n+cs.Ext))
 			fo, ferr := textwire.EvaluateFile(abs, nil)
@@ -255,6 +258,11 @@ func TestC18_Addressing(t *testing.T) {
 			tr[realDir+"/zbase"+ext] = tree.Entry{Content: "<html>@reserve(\"body\")</html>"}
 			tr[realDir+"/zsection"+ext] = tree.Entry{Content: "@use(\"zbase\")@insert(\"body\")<main>@reserve(\"inner\")</main>@end"}
 			tr[realDir+"/sub/zhome"+ext] = tree.Entry{Content: "@use(\"zbase\")@insert(\"body\")home@end"}
+		}
+		if rapid.IntRange(0, 2).Draw(rt, "componentRefs") == 0 {
+			// a valid tree loads whatever the spelling of the relative paths inside it
+			tr[realDir+"/sub/zcomp"+ext] = tree.Entry{Content: "<zc>"}
+			tr[realDir+"/zuser"+ext] = tree.Entry{Content: "@component(\"sub/zcomp\");@component(\"/sub/zcomp\");@component(\"./sub/zcomp\");@component(\"sub//zcomp\");@component(\"sub/../sub/zcomp\");"}
 		}
 		if rapid.Bool().Draw(rt, "doubleExt") {
 			tr[realDir+"/dbl"+ext+ext] = tree.Entry{Content: "FILE:dbl" + ext}
